@@ -4,6 +4,7 @@ CONSTANT FIX_VISIBLE = TRUE
 CONSTANT FIX_TPL = TRUE
 CONSTANT FIX_LOGPANIC = TRUE
 CONSTANT FIX_RECFIRST = TRUE
+CONSTANT FIX_GZONCE = TRUE
 SPECIFICATION Spec
 INVARIANT OneCommit
 INVARIANT ErrorGetsBody
